@@ -9,6 +9,7 @@ import (
 	"fmt"
 	"reflect"
 	"sort"
+	"strings"
 	"time"
 
 	"github.com/gogo/protobuf/proto"
@@ -198,6 +199,9 @@ func cloneBlockPB(bz []byte) *kproto.Block {
 
 // mutationsFor enumerates every single-field mutation of the wire form of b.
 func mutationsFor(b *baseBlock) []mutation {
+	if b.bigTxs {
+		return bigTxMutations(b)
+	}
 	l := &mutList{}
 	seed := b.pb
 	H := func(pb *kproto.Block) *kproto.Header { return &pb.Header }
@@ -447,6 +451,43 @@ func mutationsFor(b *baseBlock) []mutation {
 	return l.ms
 }
 
+// bigTxMutations: for EVERY position k of a long transaction list: replace tx k, swap k with k+1, drop k
+// (NumTxs untouched / adjusted), duplicate k; plus insertion at every position.
+func bigTxMutations(b *baseBlock) []mutation {
+	l := &mutList{}
+	n := len(b.pb.Data.Txs)
+	extra := rlpTx(bigExtra)
+	drop := func(pb *kproto.Block, k int) {
+		t := append([][]byte{}, pb.Data.Txs[:k]...)
+		pb.Data.Txs = append(t, pb.Data.Txs[k+1:]...)
+	}
+	for k := 0; k < n; k++ {
+		k := k
+		l.add("tx.replace", fmt.Sprintf("%d", k), func(pb *kproto.Block) { pb.Data.Txs[k] = extra })
+		if k+1 < n {
+			l.add("tx.swap", fmt.Sprintf("%d<->%d", k, k+1), func(pb *kproto.Block) { pb.Data.Txs[k], pb.Data.Txs[k+1] = pb.Data.Txs[k+1], pb.Data.Txs[k] })
+		}
+		l.add("tx.remove", fmt.Sprintf("%d", k), func(pb *kproto.Block) { drop(pb, k) })
+		l.add("tx.remove+num_txs", fmt.Sprintf("%d", k), func(pb *kproto.Block) { drop(pb, k); pb.Header.NumTxs-- })
+		l.add("tx.duplicate", fmt.Sprintf("%d", k), func(pb *kproto.Block) {
+			t := append([][]byte{}, pb.Data.Txs[:k+1]...)
+			t = append(t, pb.Data.Txs[k])
+			pb.Data.Txs = append(t, pb.Data.Txs[k+1:]...)
+		})
+	}
+	for p := 0; p <= n; p++ {
+		p := p
+		l.add("tx.insert", fmt.Sprintf("at-%d", p), func(pb *kproto.Block) {
+			t := append([][]byte{}, pb.Data.Txs[:p]...)
+			t = append(t, extra)
+			pb.Data.Txs = append(t, pb.Data.Txs[p:]...)
+		})
+	}
+	l.add("tx.swap", fmt.Sprintf("0<->%d", n-1), func(pb *kproto.Block) { pb.Data.Txs[0], pb.Data.Txs[n-1] = pb.Data.Txs[n-1], pb.Data.Txs[0] })
+	l.add("tx.remove", "all", func(pb *kproto.Block) { pb.Data.Txs = nil })
+	return l.ms
+}
+
 func heightClass(b *baseBlock) string {
 	if b.height == b.state.InitialHeight {
 		return "initial"
@@ -454,7 +495,41 @@ func heightClass(b *baseBlock) string {
 	return "later"
 }
 
+// txPosClass names the region of a long transaction list a mutation id touches: DeriveSha inserts the
+// indices 1..0x7f, then 0, then 0x80..; a defect in one run or at a run boundary gets its own signature.
+func txPosClass(id string) string {
+	i := strings.Index(id, ":")
+	if i < 0 {
+		return ""
+	}
+	rest := strings.TrimPrefix(id[i+1:], "at-")
+	k := 0
+	nd := 0
+	for nd < len(rest) && rest[nd] >= '0' && rest[nd] <= '9' {
+		k = k*10 + int(rest[nd]-'0')
+		nd++
+	}
+	if nd == 0 {
+		return ""
+	}
+	switch {
+	case k == 0:
+		return "0"
+	case k < 0x7e:
+		return "1..0x7d"
+	case k <= 0x81:
+		return fmt.Sprintf("0x%x", k)
+	case k < 0xff:
+		return "0x82..0xfe"
+	default:
+		return "0xff.."
+	}
+}
+
 func mutSig(b *baseBlock, m *mutation, path, oracle string) string {
+	if b.bigTxs {
+		return fmt.Sprintf("C13|height=%s|txs>=127|mutation=%s|position=%s|path=%s|oracle=%s", heightClass(b), m.class, txPosClass(m.id), path, oracle)
+	}
 	if path == "" {
 		return fmt.Sprintf("C13|height=%s|mutation=%s|oracle=%s", heightClass(b), m.class, oracle)
 	}
